@@ -373,3 +373,6 @@ def check(ctx):
     r3_lookup(ctx)
     r4_observer_snapshots(ctx)
     r5_error_ref_index_agrees(ctx)
+
+
+CLAUSE += "; the handler found for the error's own type is attached whenever it is found, whatever the catch-all lookup says"
